@@ -6,6 +6,7 @@ from collections import Counter
 
 from hypothesis import strategies as st
 
+from vf import gen
 from vf import tracking as T
 from vf.engine import Ctx, Property
 
@@ -32,17 +33,22 @@ class C06(Property):
         return {"examples": 8000 if tier == "quick" else 100000, "shards": 16}
 
     def strategy(self, tier):
-        return T.time_courses(tier=tier)
+        return gen.rarely(T.crowd_specs(tier), T.time_courses(tier=tier), 80)
 
     def exhaustive_jobs(self, tier):
-        return T.lattice_jobs(4 if tier == "quick" else 5)
+        return T.lattice_jobs(4 if tier == "quick" else 5) + T.crowd_jobs(tier)
 
     def expand(self, job):
+        if job.get("crowd"):
+            return iter([T.crowd_job_spec(job)])
         return T.lattice_expand(job)
 
     def check(self, spec, ctx: Ctx):
         from droplets import DropletTrackList
 
+        if spec["mode"] == "crowd":
+            spec = T.expand_crowd(spec)
+            ctx.cls("crowd>" + str(max(t for t in (32, 64, 128, 256, 512, 1024, 2048, 4096) if spec["crowd"] > t)))
         etc, geom, grid = T.build_time_course(spec)
         frames = spec["frames"]
         snap = T.snapshot(etc)
@@ -65,11 +71,10 @@ class C06(Property):
             missing = sum((exp - got).values())
             extra = sum((got - exp).values())
             ctx.fail(f"partition:{spec['method']}", f"{missing} droplet(s) missing, {extra} extra/altered/mis-stamped in the tracks")
+        input_ids = {id(x) for e in etc.emulsions for x in e}
         for tr in tracks:
             ctx.require(len(tr.times) == len(tr.droplets) and len(tr) >= 1, "track:lengths", f"track with {len(tr.times)} times / {len(tr.droplets)} droplets")
-            for d in tr.droplets:
-                for e in etc.emulsions:
-                    ctx.require(all(d is not x for x in e), "track:aliases-input", "a track holds the very object of the input emulsion")
+            ctx.require(not any(id(d) in input_ids for d in tr.droplets), "track:aliases-input", "a track holds the very object of the input emulsion")
         # second sentence, under its premise
         tol = 1e-9 * spec["site_spacing"]
         if not any(T.frame_has_overlap(f, geom, tol) for f in frames):
